@@ -13,6 +13,7 @@ R09.6 success and no violation => OPTIMAL
 from __future__ import annotations
 
 import ast
+import re
 
 from ..astutil import dotted, src, walk_local, local_assignments, calls, dominating_guards, conjuncts, if_chain
 from ..logic import formula, And, Or, Not, atom, TRUE, counterexample
@@ -220,7 +221,14 @@ def _wiring(prog, rep, fi, call):
             rep.undecided(f"{fname}:minimize({k}=): the keyword arguments are spread from a mapping this rule cannot read")
             continue
         ok = k in kw and src(kw[k]) == k
-        rep.ob("R09.1", f"{fname}:minimize({k}=)", ok, f"{k} is forwarded unchanged" if ok else f"{k} is not forwarded unchanged ({src(kw[k]) if k in kw else 'missing'})", loc=f"{fi.module.rel}:{call.lineno}", detail="forwarded")
+        if not ok and k in kw and not isinstance(kw[k], ast.Constant):
+            v_ = kw[k]
+            if isinstance(v_, ast.Name) and len([x for x in assigns.get(v_.id, []) if isinstance(x, ast.AST)]) == 1 and src(assigns[v_.id][0]) == k:
+                ok = True
+            else:
+                rep.undecided(f"{fname}:minimize({k}=): passed as `{src(kw[k])[:40]}`; whether that is the caller's {k} is not decided")
+                continue
+        rep.ob("R09.1", f"{fname}:minimize({k}=)", ok, f"{k} is forwarded unchanged" if ok else f"{k} is not forwarded unchanged ({src(kw[k]) if k in kw else 'missing'})", loc=f"{fi.module.rel}:{call.lineno}", detail="forwarded", robust=True)
     # jac withheld exactly for the derivative-free set
     if "jac" in kw:
         cond = None
@@ -233,8 +241,17 @@ def _wiring(prog, rep, fi, call):
         names = [nm for nm in assigns if nm in (cond or "")]
         sets = {nm: literal_set(assigns, nm) for nm in names}
         sets = {k: v for k, v in sets.items() if v is not None}
+        if not sets and cond:
+            from .c08 import _module_literal
+            for nm in set(re.findall(r"[A-Za-z_]\w*", cond)):
+                vals_ = _module_literal(prog, fi.module, nm)
+                if vals_ is not None:
+                    sets[nm] = set(vals_)
         ok = bool(cond) and "not in" in cond and len(sets) == 1 and next(iter(sets.values())) <= SCIPY_DERIV_FREE
-        rep.ob("R09.1", f"{fname}:minimize(jac=)", ok, f"gradient withheld exactly when `method in {next(iter(sets))}` = {sorted(next(iter(sets.values())))} (all derivative-free in SciPy)" if ok else f"gradient is passed under `{cond}`; it must be withheld exactly for derivative-free methods {sorted(SCIPY_DERIV_FREE)}", loc=f"{fi.module.rel}:{call.lineno}", detail="withheld-for-derivative-free")
+        if not ok and not (bool(cond) and "not in" in cond and len(sets) == 1):
+            rep.undecided(f"{fname}:minimize(jac=): the condition under which the gradient is passed (`{cond}`) is not `method not in <literal set>`")
+        else:
+          rep.ob("R09.1", f"{fname}:minimize(jac=)", ok, f"gradient withheld exactly when `method in {next(iter(sets))}` = {sorted(next(iter(sets.values())))} (all derivative-free in SciPy)" if ok else f"gradient is passed under `{cond}`; it must be withheld exactly for derivative-free methods {sorted(SCIPY_DERIV_FREE)}", loc=f"{fi.module.rel}:{call.lineno}", detail="withheld-for-derivative-free", robust=True)
     # hess supplied exactly for Hessian-capable methods
     hs = None
     for nm in assigns:
@@ -372,36 +389,116 @@ def _bounds(prog, rep, mods):
     if not builders:
         raise AnalysisError("construction of the bounds list for minimize() not found")
     for f2, lst in builders:
-        loop = None
+        # the list is built by a loop with append, or is a comprehension (returned / bound to the list name)
+        loop = comp = None
         for n in walk_local(f2.node, include_self=False):
             if isinstance(n, ast.For) and any(isinstance(c, ast.Call) and isinstance(c.func, ast.Attribute) and c.func.attr == "append" and src(c.func.value) == lst for c in ast.walk(n)):
                 loop = n
         if loop is None:
+            for n in walk_local(f2.node, include_self=False):
+                val = n.value if isinstance(n, (ast.Return, ast.Assign)) else None
+                if isinstance(val, ast.ListComp) and len(val.generators) == 1 and isinstance(val.elt, ast.Tuple) and len(val.elt.elts) == 2:
+                    comp = val
+        if loop is None and comp is None:
             raise AnalysisError(f"{f2.name}: bounds loop not recognised")
-        v = src(loop.target)
-        app = [c for c in ast.walk(loop) if isinstance(c, ast.Call) and isinstance(c.func, ast.Attribute) and c.func.attr == "append"][0]
-        tup = app.args[0]
-        la = local_assignments(ast.Module(body=loop.body, type_ignores=[]))
         la = {}
-        for st in loop.body:
-            if isinstance(st, ast.Assign) and isinstance(st.targets[0], ast.Name):
-                la[st.targets[0].id] = st.value
+        if loop is not None:
+            v = src(loop.target)
+            app = [c for c in ast.walk(loop) if isinstance(c, ast.Call) and isinstance(c.func, ast.Attribute) and c.func.attr == "append"][0]
+            tup = app.args[0]
+            for st in loop.body:
+                if isinstance(st, ast.Assign) and isinstance(st.targets[0], ast.Name):
+                    la[st.targets[0].id] = st.value
+            it_node, at = loop.iter, app
+        else:
+            v = src(comp.generators[0].target)
+            tup, it_node, at = comp.elt, comp.generators[0].iter, comp
+        if not (isinstance(tup, ast.Tuple) and len(tup.elts) == 2):
+            rep.undecided(f"{f2.name}: what is appended to the bounds list is not a pair")
+            continue
 
-        def defaulted(node, attr, inf_sign):
-            e = la.get(node.id) if isinstance(node, ast.Name) else node
-            if not isinstance(e, ast.IfExp):
-                return False
-            s_body, s_else, t = src(e.body), src(e.orelse), src(e.test)
-            want_inf = "-np.inf" if inf_sign < 0 else "np.inf"
-            return s_body == f"{v}.{attr}" and t == f"{v}.{attr} is not None" and s_else == want_inf
+        def component(node, depth=0):
+            """-> (attr, default) with default in {'-inf', '+inf', 'none', <number>}, 'truthy:<attr>' for `v.a or d`, or None"""
+            e = la.get(node.id) if isinstance(node, ast.Name) and node.id in la else node
+            if isinstance(e, ast.NamedExpr):
+                e = e.value
+            def attr_of(x):
+                if isinstance(x, ast.NamedExpr):
+                    x = x.value
+                if isinstance(x, ast.Name) and x.id in la:
+                    x = la[x.id]
+                return x.attr if isinstance(x, ast.Attribute) and src(x.value) == v and x.attr in ("lb", "ub") else None
+            def default_of(x):
+                t = src(x).replace("numpy.", "np.").replace("float('inf')", "np.inf").replace('float("inf")', "np.inf").replace("math.inf", "np.inf")
+                if t in ("-np.inf", "-inf", "-np.inf"):
+                    return "-inf"
+                if t in ("np.inf", "inf", "+np.inf"):
+                    return "+inf"
+                if isinstance(x, ast.Name) and x.id in fconst:
+                    return default_of(fconst[x.id])
+                if isinstance(x, ast.Constant):
+                    return "none" if x.value is None else x.value
+                return None
+            if isinstance(e, ast.IfExp):
+                t = e.test
+                if isinstance(t, ast.Compare) and len(t.ops) == 1 and isinstance(t.comparators[0], ast.Constant) and t.comparators[0].value is None and attr_of(t.left):
+                    a_ = attr_of(t.left)
+                    val, dflt = (e.body, e.orelse) if isinstance(t.ops[0], (ast.IsNot, ast.NotEq)) else (e.orelse, e.body)
+                    if attr_of(val) == a_ and default_of(dflt) is not None:
+                        return (a_, default_of(dflt))
+                    return None
+                if attr_of(t) and attr_of(e.body) == attr_of(t) and default_of(e.orelse) is not None:
+                    return ("truthy:" + attr_of(t), default_of(e.orelse))
+                return None
+            if isinstance(e, ast.BoolOp) and isinstance(e.op, ast.Or) and len(e.values) == 2 and attr_of(e.values[0]) and default_of(e.values[1]) is not None:
+                return ("truthy:" + attr_of(e.values[0]), default_of(e.values[1]))
+            if attr_of(e):
+                return (attr_of(e), "none")
+            if isinstance(e, ast.Call) and isinstance(e.func, ast.Name) and len(e.args) == 2 and not e.keywords and depth < 2:
+                # one-expression helper `def _value_or(value, default): return value if value is not None else default`
+                h = prog.functions.get(f"{f2.module.name}:{e.func.id}")
+                if h is not None and len(h.node.args.args) == 2:
+                    hb = [x for x in h.node.body if not (isinstance(x, ast.Expr) and isinstance(x.value, ast.Constant))]
+                    p0, p1 = [a.arg for a in h.node.args.args]
+                    if len(hb) == 1 and isinstance(hb[0], ast.Return) and isinstance(hb[0].value, ast.IfExp):
+                        r = hb[0].value
+                        t = r.test
+                        if isinstance(t, ast.Compare) and src(t.left) == p0 and isinstance(t.comparators[0], ast.Constant) and t.comparators[0].value is None and len(t.ops) == 1:
+                            val, dflt = (r.body, r.orelse) if isinstance(t.ops[0], (ast.IsNot, ast.NotEq)) else (r.orelse, r.body)
+                            if src(val) == p0 and src(dflt) == p1 and attr_of(e.args[0]) and default_of(e.args[1]) is not None:
+                                return (attr_of(e.args[0]), default_of(e.args[1]))
+            return None
 
-        ok_order = isinstance(tup, ast.Tuple) and len(tup.elts) == 2
-        lb_ok = ok_order and defaulted(tup.elts[0], "lb", -1)
-        ub_ok = ok_order and defaulted(tup.elts[1], "ub", +1)
-        rep.ob("R09.3", f"{f2.name}:bounds", lb_ok, f"first component is {v}.lb, or -inf when unset" if lb_ok else f"first component of a bounds pair is not ({v}.lb or -inf)", loc=f"{f2.module.rel}:{app.lineno}", detail="lower")
-        rep.ob("R09.3", f"{f2.name}:bounds", ub_ok, f"second component is {v}.ub, or +inf when unset" if ub_ok else f"second component of a bounds pair is not ({v}.ub or +inf)", loc=f"{f2.module.rel}:{app.lineno}", detail="upper")
-        it = src(loop.iter)
-        rep.ob("R09.3", f"{f2.name}:bounds", it == "variables", "one pair per variable in solver order (loop over `variables`)" if it == "variables" else f"the bounds loop ranges over {it}, not over the solver's variable list", loc=f"{f2.module.rel}:{loop.lineno}", detail="solver-order")
+        fconst = {}
+        for st in list(f2.module.tree.body) + [n for n in walk_local(f2.node, include_self=False)]:
+            tg = st.targets[0] if isinstance(st, ast.Assign) and len(st.targets) == 1 else None
+            if isinstance(tg, ast.Name) and (loop is None or st not in loop.body):
+                fconst.setdefault(tg.id, st.value)
+        for pos, attr, want, name in ((0, "lb", "-inf", "lower"), (1, "ub", "+inf", "upper")):
+            c = component(tup.elts[pos])
+            if c is None:
+                rep.undecided(f"{f2.name}:bounds: the {name} component `{src(tup.elts[pos])[:40]}` is not read by this rule")
+                continue
+            ok = c == (attr, want)
+            if c[0].startswith("truthy:"):
+                why = f"the {name} component tests the truthiness of {v}.{c[0][7:]}: a bound of exactly 0 is treated as unset"
+            elif c[0] != attr:
+                why = f"the {name} component is {v}.{c[0]}, not {v}.{attr}"
+            else:
+                why = f"an unset {v}.{attr} becomes {c[1]}, not {want}"
+            rep.ob("R09.3", f"{f2.name}:bounds", ok, f"{name} component is {v}.{attr}, or {want} when unset" if ok else why, loc=f"{f2.module.rel}:{at.lineno}", detail=name, robust=True)
+        it = it_node
+        if isinstance(it, ast.Name):
+            vals_ = [x for x in local_assignments(f2.node).get(it.id, []) if isinstance(x, ast.AST)]
+            if len(vals_) == 1:
+                it = vals_[0]
+        params = [a_.arg for a_ in f2.node.args.args]
+        if isinstance(it, ast.Name) and it.id in params:
+            rep.ob("R09.3", f"{f2.name}:bounds", True, f"one pair per variable in solver order (loop over `{it.id}`)", loc=f"{f2.module.rel}:{at.lineno}", detail="solver-order", robust=True)
+        elif isinstance(it, ast.Call) and (dotted(it.func) or "") in ("sorted", "reversed", "set", "list") and it.args and isinstance(it.args[0], ast.Name) and it.args[0].id in params and (dotted(it.func) != "list"):
+            rep.ob("R09.3", f"{f2.name}:bounds", False, f"the bounds loop ranges over {src(it)[:50]}, not over the solver's variable list in its own order: pair i no longer belongs to column i", loc=f"{f2.module.rel}:{at.lineno}", detail="solver-order", robust=True)
+        else:
+            rep.undecided(f"{f2.name}:bounds: the loop ranges over `{src(it_node)[:40]}`; whether that is the solver's variable order is not decided")
 
 
 def _x0(prog, rep):
@@ -499,7 +596,7 @@ def _x0(prog, rep):
             if not outside:
                 rep.undecided(f"{fi.name}: case `{t}`: x0 = {src(e)[:50]} -- whether it lies within the finite bound(s) is not decided by this rule")
                 continue
-        rep.ob("R09.4", f"{fi.name}", ok,
+        rep.ob("R09.4", f"{fi.name}", ok, robust=True, msg=
                f"case `{t}`: x0 = {src(e)} lies within the finite bound(s)" if ok else f"case `{t}`: x0 = {src(e)} is not provably within [lb, ub] (offsets must be added to a lower bound / subtracted from an upper bound, two-sided case capped by the midpoint)",
                loc=f"{fi.module.rel}:{e.lineno}", detail=f"case:{t}")
     # lb / ub read from the variable of the same iteration
@@ -516,21 +613,55 @@ def _auto(prog, rep):
     if not sel:
         raise AnalysisError("automatic method selector not found")
     fi = sel[0]
-    for n in walk_local(fi.node, include_self=False):
-        if isinstance(n, ast.Return) and isinstance(n.value, ast.Constant) and isinstance(n.value.value, str):
-            lit = n.value.value
-            pc = path_condition(n)
-            # are constraints present on this path?
-            no_cons = [a for a in pc.atoms() if "_constraints" in a]
-            unconstrained_only = bool(no_cons) and counterexample(pc, Not(atom(no_cons[0]))) is None and False
-            # `not self._constraints` true => unconstrained branch
-            in_uncon = any(src(t) == "not self._constraints" and pol for t, pol in dominating_guards(n))
-            if in_uncon:
-                ok = lit in SCIPY_BOUNDS_METHODS
-                rep.ob("R09.5", f"{fi.name}->{lit}", ok, f"unconstrained problems get {lit!r}, which honours bounds" if ok else f"unconstrained problems get {lit!r}, which ignores variable bounds", loc=f"{fi.module.rel}:{n.lineno}", detail="unconstrained")
-            else:
+    # walked once with constraints present and once without: which method names can be returned
+    from ..scenario import Explorer, TooManyPaths
+    asg = local_assignments(fi.node)
+
+    def cons_expr(e):
+        """e denotes the constraint list (self._constraints / self.constraints / a local bound once to it)"""
+        if isinstance(e, ast.Attribute) and e.attr in ("_constraints", "constraints") and dotted(e.value) == "self":
+            return True
+        if isinstance(e, ast.Name):
+            vals = [v for v in asg.get(e.id, []) if isinstance(v, ast.AST)]
+            return len(vals) == 1 and cons_expr(vals[0])
+        return False
+
+    for has in (True, False):
+        def atom_truth(t, state, has=has):
+            if cons_expr(t):
+                return has
+            if isinstance(t, ast.Compare) and len(t.ops) == 1 and isinstance(t.left, ast.Call) and dotted(t.left.func) == "len" and t.left.args and cons_expr(t.left.args[0]) and isinstance(t.comparators[0], ast.Constant) and t.comparators[0].value == 0:
+                op = t.ops[0]
+                if isinstance(op, (ast.Eq, ast.LtE)):
+                    return not has
+                if isinstance(op, (ast.Gt, ast.NotEq)):
+                    return has
+            if "onstraint" in src(t):
+                state["unsure"].append(src(t)[:50])
+            return None
+
+        try:
+            paths = Explorer(atom_truth, lambda st, state: None, max_paths=512).explore(fi.node.body, {"unsure": []})
+        except TooManyPaths:
+            rep.undecided(f"{fi.name}: too many paths")
+            return
+        for state, term in paths:
+            if not (isinstance(term, tuple) and term[0] == "return"):
+                continue
+            rv = term[1]
+            if not (isinstance(rv, ast.Constant) and isinstance(rv.value, str)):
+                rep.undecided(f"{fi.name}: returns `{src(rv)[:40] if rv is not None else None}`, not a method name literal")
+                continue
+            lit = rv.value
+            if has:
                 ok = lit in SCIPY_CONSTRAINT_METHODS
-                rep.ob("R09.5", f"{fi.name}->{lit}", ok, f"with constraints present {lit!r} is selected, a constraint-capable method" if ok else f"with constraints present {lit!r} is selected, but scipy.optimize.minimize ignores `constraints` for that method", loc=f"{fi.module.rel}:{n.lineno}", detail=f"constrained:{_site_key(n)}")
+                if not ok and state["unsure"]:
+                    rep.undecided(f"{fi.name}->{lit}: returned on a path that depends on `{state['unsure'][0]}`, which this rule cannot relate to the presence of constraints")
+                    continue
+                rep.ob("R09.5", f"{fi.name}->{lit}", ok, f"with constraints present {lit!r} is selected, a constraint-capable method" if ok else f"with constraints present {lit!r} can be selected, but scipy.optimize.minimize ignores `constraints` for that method", loc=f"{fi.module.rel}:{rv.lineno}", detail=f"constrained:{lit}", robust=True)
+            else:
+                ok = lit in SCIPY_BOUNDS_METHODS or lit in SCIPY_CONSTRAINT_METHODS
+                rep.ob("R09.5", f"{fi.name}->{lit}", ok, f"unconstrained problems can get {lit!r}, which honours bounds" if ok else f"unconstrained problems get {lit!r}, which ignores variable bounds", loc=f"{fi.module.rel}:{rv.lineno}", detail=f"unconstrained:{lit}", robust=True)
 
 
 def _site_key(n):
